@@ -2165,9 +2165,11 @@ PROPS = {
             'HabuVerif.Sign.div_fact', 'HabuVerif.Sign.mul_NN', 'HabuVerif.Sign.thresh_sound',
             'HabuVerif.Sign.nnLine_sound_partial4', 'HabuVerif.Sign.intToFloatNN', 'HabuVerif.Sign.nnLine_sound_partial5',
             'HabuVerif.Sign.closed_line_sound', 'HabuVerif.Sign.key_sound', 'HabuVerif.Sign.fstr_sound', 'HabuVerif.Sign.roundFact',
-            'HabuVerif.Sign.roundFloatNegFact', 'HabuVerif.Sign.nnLine_sound']},
+            'HabuVerif.Sign.roundFloatNegFact', 'HabuVerif.Sign.nnLine_sound', 'HabuVerif.Sign.semBridge',
+            'HabuVerif.Sign.solved_lines_not_negative', 'HabuVerif.C15Sign.solved_lines_not_negative_2021',
+            'HabuVerif.C15Sign.solved_lines_not_negative_2022', 'HabuVerif.C15Sign.solved_lines_not_negative_2023']},
         assumptions=['proved for the federal balance lines (1040 lines 34, 35a, 36, 37) in exact cents (amounts up to 1e13 cents) and for the NC D-400 balance lines (19, 23, 25, 26a, 27, 28, 33, 34, refund) in exact whole dollars (up to 1e13 dollars)',
-                     'sign half: a verified-in-part sign analysis (Spec/Sign.lean): per year the greatest set of float/int lines closed under "not negative given not-negative inputs and not-negative lines of the set" is regenerated and its closedness re-checked by the kernel (about 390 of 540-570 lines without trusting sum(), about 435 with); lines of the reviewed baseline that drop out are broken obligations. The soundness theorem of the analysis (nnLine_sound: for all stores with not-negative inputs and not-negative numbers under the keys of the set, a returned value is a not-negative number) is proved for the whole line language incl. the field wrapper, the builtin table, arithmetic, thresholds, loops and helper calls, incl. the key-string lemmas, with no hypothesis left about the language; PARTIAL: the larger sets additionally assume that the compensated sum() of not-negative numbers is not negative; the lift from line evaluations to solver states is not proved; lines outside the sets (plain and conditional subtractions, tax-table lookups) are checked on explored returns only']),
+                     'sign half: a VERIFIED sign analysis (Spec/Sign.lean): per year the greatest set S of float/int lines closed under "not negative given not-negative inputs and not-negative lines of the set" is regenerated and its closedness re-checked by the kernel (391/390/387 of 569/540/540 numeric lines); soundness against the DSL evaluator (nnLine_sound) and the lift to every state the solver returns (solved_lines_not_negative_<year>: for inputs and prompt answers that parse to not-negative values, every stored value of a line of S is a not-negative number) are proved; lines of the reviewed baseline that drop out of S are broken obligations. PARTIAL: the larger sets that additionally trust CPython sum() (about 435 lines) are only re-checked for closedness; lines outside the sets (plain and conditional subtractions, tax-table lookups) are checked on explored returns only']),
     'C16': dict(run=run_C16, theorems=['HabuVerif.C16.' + t for t in [
         'shapes_2021', 'shapes_2022', 'shapes_2023', 'withholding_total', 'renumbering_keeps_withholding',
         'net_is_payments_minus_tax', 'solved_net_is_payments_minus_tax', 'withholding_one_for_one',
